@@ -93,9 +93,21 @@ impl fmt::Write for Stack {
     }
 }
 
+/// A panic inside the code under test is a violation of the property being enumerated, never
+/// a crash of the engine.
+fn guarded(cx: &Ctx, what: &str, input: Value, f: impl FnOnce()) {
+    if let Err(p) = std::panic::catch_unwind(std::panic::AssertUnwindSafe(f)) {
+        let msg = p.downcast_ref::<String>().cloned().or_else(|| p.downcast_ref::<&str>().map(|s| s.to_string())).unwrap_or_default();
+        cx.fail(&format!("{what}/panicked"), format!("{what}: the call panicked: {msg}"), input);
+    }
+}
+
 #[inline]
-fn int_ok<T: Display + ToLeanString + Copy>(v: T) -> bool {
-    let l = v.to_lean_string();
+fn int_ok<T: Display + ToLeanString + Copy + std::panic::RefUnwindSafe>(v: T) -> bool {
+    let l = match std::panic::catch_unwind(|| v.to_lean_string()) {
+        Ok(l) => l,
+        Err(_) => return false,
+    };
     let mut b = Stack { b: [0; 64], n: 0 };
     let _ = write!(b, "{v}");
     l.as_bytes() == &b.b[..b.n] && (l.len() > 16 || !l.is_heap_allocated())
@@ -106,12 +118,14 @@ macro_rules! check_int {
         let v: $t = $v;
         $cnt += 1;
         if !int_ok(v) {
-            $cx.fail(concat!(stringify!($t), "/mismatch"), format!("{}::to_lean_string({}) = {:?}, Display gives {:?}", stringify!($t), v, v.to_lean_string().as_str(), v.to_string()), json!({"type": stringify!($t), "value": v.to_string()}));
+            let got = std::panic::catch_unwind(|| v.to_lean_string().as_str().to_string()).unwrap_or_else(|_| "<panicked>".into());
+            $cx.fail(concat!(stringify!($t), "/mismatch"), format!("{}::to_lean_string({}) = {:?}, Display gives {:?}", stringify!($t), v, got, v.to_string()), json!({"type": stringify!($t), "value": v.to_string()}));
         }
         if let Some(nz) = NonZero::<$t>::new(v) {
             $cnt += 1;
             if !int_ok(nz) {
-                $cx.fail(concat!("NonZero<", stringify!($t), ">/mismatch"), format!("NonZero<{}>::to_lean_string({}) = {:?}", stringify!($t), v, nz.to_lean_string().as_str()), json!({"type": concat!("NonZero<", stringify!($t), ">"), "value": v.to_string()}));
+                let got = std::panic::catch_unwind(|| nz.to_lean_string().as_str().to_string()).unwrap_or_else(|_| "<panicked>".into());
+                $cx.fail(concat!("NonZero<", stringify!($t), ">/mismatch"), format!("NonZero<{}>::to_lean_string({}) = {:?}", stringify!($t), v, got), json!({"type": concat!("NonZero<", stringify!($t), ">"), "value": v.to_string()}));
             }
         }
     }};
@@ -376,6 +390,10 @@ fn width_texts(max: usize) -> Vec<String> {
 }
 
 fn display_eq<T: Display + ToLeanString>(cx: &Ctx, what: &str, v: &T, input: Value) {
+    let inp2 = input.clone();
+    guarded(cx, what, inp2, || display_eq_inner(cx, what, v, input));
+}
+fn display_eq_inner<T: Display + ToLeanString>(cx: &Ctx, what: &str, v: &T, input: Value) {
     let want = v.to_string();
     let got = v.to_lean_string();
     let got2 = v.try_to_lean_string();
@@ -386,7 +404,10 @@ fn display_eq<T: Display + ToLeanString>(cx: &Ctx, what: &str, v: &T, input: Val
 
 fn f32_ok(bits: u32) -> bool {
     let f = f32::from_bits(bits);
-    let l = f.to_lean_string();
+    let l = match std::panic::catch_unwind(|| f.to_lean_string()) {
+        Ok(l) => l,
+        Err(_) => return false,
+    };
     match l.parse::<f32>() {
         Ok(g) => g.to_bits() == bits || (f.is_nan() && g.is_nan()),
         Err(_) => false,
@@ -394,7 +415,10 @@ fn f32_ok(bits: u32) -> bool {
 }
 fn f64_ok(bits: u64) -> bool {
     let f = f64::from_bits(bits);
-    let l = f.to_lean_string();
+    let l = match std::panic::catch_unwind(|| f.to_lean_string()) {
+        Ok(l) => l,
+        Err(_) => return false,
+    };
     match l.parse::<f64>() {
         Ok(g) => g.to_bits() == bits || (f.is_nan() && g.is_nan()),
         Err(_) => false,
@@ -624,6 +648,9 @@ const U16_ALPHA: [u16; 10] = [0x0041, 0x00E9, 0x20AC, 0xD7FF, 0xD800, 0xDBFF, 0x
 
 #[inline]
 fn utf8_case(cx: &Ctx, b: &[u8]) {
+    guarded(cx, "utf8", json!({"bytes": b}), || utf8_case_inner(cx, b));
+}
+fn utf8_case_inner(cx: &Ctx, b: &[u8]) {
     let a = LeanString::from_utf8(b);
     let s = std::str::from_utf8(b);
     let ok = match (&a, &s) {
@@ -642,6 +669,9 @@ fn utf8_case(cx: &Ctx, b: &[u8]) {
 }
 #[inline]
 fn utf16_case(cx: &Ctx, u: &[u16]) {
+    guarded(cx, "utf16", json!({"u16": u}), || utf16_case_inner(cx, u));
+}
+fn utf16_case_inner(cx: &Ctx, u: &[u16]) {
     let a = LeanString::from_utf16(u);
     let s = String::from_utf16(u);
     let ok = match (&a, &s) {
@@ -881,6 +911,11 @@ mod serde_part {
     }
 
     pub fn string_case(cx: &Ctx, t: &str) -> u64 {
+        let mut n = 0;
+        guarded(cx, "serde-string", json!({"text": t}), || n = string_case_inner(cx, t));
+        n.max(1)
+    }
+    fn string_case_inner(cx: &Ctx, t: &str) -> u64 {
         let l = LeanString::from(t);
         let s = t.to_string();
         let mut n = 0;
@@ -933,6 +968,11 @@ mod serde_part {
 
     pub fn bytes_case(cx: &Ctx, b: &[u8]) -> u64 {
         let mut n = 0;
+        guarded(cx, "serde-bytes", json!({"bytes": b}), || n = bytes_case_inner(cx, b));
+        n.max(1)
+    }
+    fn bytes_case_inner(cx: &Ctx, b: &[u8]) -> u64 {
+        let mut n = 0;
         let valid = std::str::from_utf8(b).ok();
         for which in 0..6u8 {
             if which < 3 && valid.is_none() {
@@ -972,6 +1012,12 @@ mod serde_part {
 }
 
 fn arbitrary_case(cx: &Ctx, seed: &[u8]) -> u64 {
+    guarded(cx, "arbitrary", json!({"seed": seed}), || {
+        arbitrary_case_inner(cx, seed);
+    });
+    2
+}
+fn arbitrary_case_inner(cx: &Ctx, seed: &[u8]) -> u64 {
     use arbitrary::{Arbitrary, Unstructured};
     let mut u1 = Unstructured::new(seed);
     let mut u2 = Unstructured::new(seed);
@@ -1197,6 +1243,7 @@ fn main() {
     let wall: f64 = arg(&args, "--wall").and_then(|s| s.parse().ok()).unwrap_or(if tier == "quick" { 120.0 } else { 3000.0 });
     let cx = Ctx { prop: prop.clone(), evals: AtomicU64::new(0), classes: Mutex::new(BTreeMap::new()), findings: Mutex::new(BTreeMap::new()), domains: Mutex::new(vec![]), samples: Mutex::new(vec![]), threads, start: Instant::now(), wall, capped: Mutex::new(vec![]) };
     let quick = tier == "quick";
+    std::panic::set_hook(Box::new(|_| {}));
     let (rule, assumptions): (&str, Vec<&str>) = match prop.as_str() {
         "C14" => {
             c14(&cx, quick);
